@@ -276,14 +276,27 @@ widths!(c_drop, VERIF_PARAM_UNWIND, u2_drop_u8, u2_drop_u16, u2_drop_u32, u2_dro
 
 // ------------------------------------------------------------------ C17: allocation failure
 
-static mut ALLOC_FAILS: bool = false;
-static mut ALLOC_CALLS: usize = 0;
+/// bit k set: the k-th `alloc_zeroed` request is refused (symbolic: WHICHEVER request fails)
+static mut FAIL_MASK: u8 = 0;
+static mut ZCALLS: u8 = 0;
+static mut REFUSED: u8 = 0;
+
+unsafe fn refuse_now() -> bool {
+    let k = ZCALLS;
+    if ZCALLS < 7 {
+        ZCALLS += 1;
+    }
+    let r = (FAIL_MASK >> k) & 1 == 1;
+    if r && REFUSED < 200 {
+        REFUSED += 1;
+    }
+    r
+}
 
 /// Contract-level model of `GlobalAlloc::alloc_zeroed`: a zeroed block of the requested layout,
 /// or null.  Which it is, is chosen by the harness (symbolically).
 unsafe fn may_fail_alloc_zeroed(layout: Layout) -> *mut u8 {
-    ALLOC_CALLS += 1;
-    if ALLOC_FAILS {
+    if refuse_now() {
         std::ptr::null_mut()
     } else {
         let p = alloc(layout);
@@ -306,7 +319,7 @@ unsafe impl std::alloc::GlobalAlloc for ReplayAlloc {
         std::alloc::System.dealloc(p, layout)
     }
     unsafe fn alloc_zeroed(&self, layout: Layout) -> *mut u8 {
-        if ALLOC_FAILS {
+        if refuse_now() {
             std::ptr::null_mut()
         } else {
             std::alloc::System.alloc_zeroed(layout)
@@ -330,7 +343,7 @@ fn c_make_accessible_oom<C: CellType + kani::Arbitrary>() {
         kani::assume(-R <= s && s < e && e <= R);
         let j = any_index();
         let before = view(&m, j);
-        ALLOC_FAILS = kani::any();
+        FAIL_MASK = kani::any();
         m.make_accessible(s, e);
         // Reaching this point means the call RETURNED.  Then the tape must be intact: never a
         // null or stale buffer.  (Every access through a null / freed block inside the call is
@@ -340,10 +353,8 @@ fn c_make_accessible_oom<C: CellType + kani::Arbitrary>() {
         let q: isize = kani::any();
         kani::assume(s <= q && q < e);
         assert!(in_buffer(&m, q));
-        if ALLOC_FAILS {
-            // a failed allocation may only be survived when no allocation was needed
-            assert!(ALLOC_CALLS == 0);
-        }
+        // a refused growth request is never survived (no retry, no continuing with the old tape)
+        assert!(REFUSED == 0);
     }
 }
 
@@ -353,13 +364,11 @@ fn c_write_oom<C: CellType + kani::Arbitrary>() {
         let o: isize = kani::any();
         kani::assume(-R <= o && o <= R);
         let x: C = kani::any();
-        ALLOC_FAILS = kani::any();
+        FAIL_MASK = kani::any();
         m.write(o, x);
         assert!(wf(&m));
         assert!(view(&m, o) == x);
-        if ALLOC_FAILS {
-            assert!(ALLOC_CALLS == 0);
-        }
+        assert!(REFUSED == 0);
     }
 }
 
